@@ -28,10 +28,34 @@ var _ PostProcessor = (*retryablePostProcessor)(nil)
 func (p *retryablePostProcessor) PostProcess(_ context.Context, results []ocr2keepers.CheckResult, payloads []ocr2keepers.UpkeepPayload) error {
 	var err error
 	retryable := 0
+	// results are not guaranteed to come back in the order of the payloads
+	// (the runner returns cached results first and batches in completion
+	// order), so a result is matched to its payload by work ID
+	byWorkID := make(map[string][]int, len(payloads))
+	for i, payload := range payloads {
+		byWorkID[payload.WorkID] = append(byWorkID[payload.WorkID], i)
+	}
 	for i, res := range results {
 		if res.PipelineExecutionState != 0 && res.Retryable {
+			idx := -1
+			for _, j := range byWorkID[res.WorkID] {
+				if idx < 0 {
+					idx = j
+				}
+				if payloads[j].Trigger.BlockNumber == res.Trigger.BlockNumber && payloads[j].Trigger.BlockHash == res.Trigger.BlockHash {
+					idx = j
+					break
+				}
+			}
+			if idx < 0 {
+				// no payload carries the work ID of the result, fall back to position
+				if i >= len(payloads) {
+					continue
+				}
+				idx = i
+			}
 			e := p.q.Enqueue(types.RetryRecord{
-				Payload:  payloads[i],
+				Payload:  payloads[idx],
 				Interval: res.RetryInterval,
 			})
 			if e == nil {
